@@ -878,13 +878,13 @@ def filter_literal(
 
     elif isinstance(ty, pydsdl.IntegerType):
         out = (
-            str(value)
+            str(value if value > -(2**63) else value + 1)
             + "U" * isinstance(ty, pydsdl.UnsignedIntegerType)
             + "L" * (ty.bit_length > 16)
             + "L" * (ty.bit_length > 32)
         )
-        assert isinstance(out, str)
-        return out
+        # The numeral 9223372036854775808 has no signed type in C/C++: the most negative value is written as (min+1)-1.
+        return out if value > -(2**63) else "(" + out + " - 1)"
 
     elif isinstance(ty, pydsdl.FloatType):
         if value.denominator == 1:
